@@ -197,12 +197,16 @@ def _stored_names(stmts):
     return out
 
 
+MUTATORS = {'append', 'add', 'update', 'extend', 'pop', 'remove', 'clear', 'insert', 'setdefault', 'discard', 'intersection_update',
+            'difference_update', 'symmetric_difference_update', 'sort', 'reverse', 'popitem', '__setitem__', '__delitem__'}
+
+
 def _mutated_names(stmts):
     """names rebound by assignment or mutated through a method call / subscript store on them (x.add(..), x[k] = v, x.a.f(..))"""
     out = _stored_names(stmts)
     for st in stmts:
         for n in ast.walk(st):
-            if isinstance(n, ast.Call) and isinstance(n.func, ast.Attribute):
+            if isinstance(n, ast.Call) and isinstance(n.func, ast.Attribute) and n.func.attr in MUTATORS:
                 base = n.func.value
                 while isinstance(base, (ast.Attribute, ast.Subscript)): base = base.value
                 if isinstance(base, ast.Name): out.add(base.id)
@@ -293,6 +297,7 @@ class Executor:
         if s == 'map': return z3.BoolVal(True) if v.x.get('always_truthy', True) else z3.Or(*v.x['pres'].values())
         if s == 'opaque':
             return z3.Bool(f'truthy({v.x})')
+        if s == 'matchobj': return v.t
         if s in self.c.truthy_handlers: return self.c.truthy_handlers[s](self, v)
         raise Unsupported('truthy ' + s)
 
